@@ -53,6 +53,11 @@ pub fn def04() -> PropDef {
 fn classes(st: &mut Stats, case: &ExecCase, t: &Trace) {
     st.or_bits("opcodes_executed", &t.opcodes);
     st.class(&format!("vm:{}", case.vm.name()));
+    if let VmKind::Fixed { data_off, end_off } = case.vm {
+        if (data_off as i64 - end_off as i64).abs() < 8 {
+            st.class("fixed-vm:overlapping-pointer-slots");
+        }
+    }
     if t.back_edges > 0 {
         st.class("back-edge");
     }
@@ -102,6 +107,19 @@ const MODEL_STEPS: u64 = 400_000;
 
 pub fn check01(runner: &mut Runner, case: &mut ExecCase, st: Option<&mut Stats>) -> Verdict {
     let addr = runner.pkt_addr(case);
+    // Overlapping pointer slots of the fixed-metadata VM: what the buffer then holds is the
+    // interpreter's own choice, not ISA semantics. C03 / C04 compare the compilers with it; C01
+    // does not judge it.
+    if let VmKind::Fixed { data_off, end_off } = case.vm {
+        if (data_off as i64 - end_off as i64).abs() < 8 {
+            if let Some(st) = st {
+                st.eval();
+                *st.discarded.entry("fixed-vm:overlapping-pointer-slots".into()).or_insert(0) += 1;
+                return Verdict::Pass;
+            }
+            return Verdict::Discard("fixed-vm-overlapping-slots");
+        }
+    }
     let m = model_run(case, addr, Quirks::default(), MODEL_STEPS);
     if let Some(st) = st {
         st.eval();
@@ -184,6 +202,8 @@ fn run01(ctx: &Ctx) {
         let v = check01(&mut runner.borrow_mut(), &mut case, if frozen { None } else { Some(&mut st) });
         (v, if want_case { case.to_json() } else { Value::Null })
     });
+    // accesses far into a packet of 32-160 KiB
+    super::bigpkt::run(ctx, Engine::Interp, 4_800, 96_000);
     // every opcode x every register pair x boundary operands, one instruction per test
     if super::matrix::run(ctx, &runner, ctx.tier.pick(4, 16) as usize, 1, &|r, c| check01(r, c, None)) {
         return;
@@ -191,7 +211,10 @@ fn run01(ctx: &Ctx) {
     super::matrix::run_pairs(ctx, &runner, ctx.tier.pick(2, 12) as usize, true, &|r, c| check01(r, c, None));
 }
 
-fn replay01(_ctx: &Ctx, _kind: &str, case: &Value) -> Verdict {
+fn replay01(_ctx: &Ctx, kind: &str, case: &Value) -> Verdict {
+    if kind == "bigpkt" {
+        return super::bigpkt::replay(case, Engine::Interp);
+    }
     let mut c = ExecCase::from_json(case);
     check01(&mut Runner::new(), &mut c, None)
 }
@@ -277,6 +300,7 @@ fn run_diff(ctx: &Ctx, engine: Engine, local_calls: bool, quick: u64, thorough: 
         let v = check_diff(&mut runner.borrow_mut(), &mut case, engine, if frozen { None } else { Some(&mut st) });
         (v, if want_case { case.to_json() } else { Value::Null })
     });
+    super::bigpkt::run(ctx, engine, if engine == Engine::Jit { 4_800 } else { 3_200 }, 64_000);
     if super::matrix::run(ctx, &runner, ctx.tier.pick(4, 16) as usize, 1, &|r, c| check_diff(r, c, engine, None)) {
         return;
     }
@@ -287,7 +311,10 @@ fn run03(ctx: &Ctx) {
     run_diff(ctx, Engine::Jit, true, 96_000, 2_000_000, 320, 6400);
 }
 
-fn replay03(_ctx: &Ctx, _kind: &str, case: &Value) -> Verdict {
+fn replay03(_ctx: &Ctx, kind: &str, case: &Value) -> Verdict {
+    if kind == "bigpkt" {
+        return super::bigpkt::replay(case, Engine::Jit);
+    }
     let mut c = ExecCase::from_json(case);
     check_diff(&mut Runner::new(), &mut c, Engine::Jit, None)
 }
@@ -347,7 +374,9 @@ fn any_bool_u8() -> impl proptest::strategy::Strategy<Value = (bool, u8)> {
 
 fn replay04(_ctx: &Ctx, kind: &str, case: &Value) -> Verdict {
     let mut c = ExecCase::from_json(case);
-    if kind == "refusal" {
+    if kind == "bigpkt" {
+        super::bigpkt::replay(case, Engine::Cranelift)
+    } else if kind == "refusal" {
         check_refusal(&mut Runner::new(), &mut c)
     } else {
         check_diff(&mut Runner::new(), &mut c, Engine::Cranelift, None)
